@@ -391,6 +391,66 @@ theorem retry_lands_after_loss (asStr : V → Option (List Char)) (ops : List (O
     (∀ e' ∈ (lostOpR rx (final asStr ops) r).pending, (final asStr ops).nextId ≤ e'.2.did) :=
   retry_lands_after_loss_state rx (inv_reachable asStr hd true) (by simp only [run_ready]; rfl) r
 
+/-- Calls issued by `notifyOnDisconnect` callbacks while `connectionLost` is running (for every reachable state, any
+number of callbacks each issuing any calls with or without deadline, any errbacks that retry, provided no callback
+lets an exception out of `connectionLost`): `connectionLost` amounts to "the callbacks' calls as ordinary calls, then
+the loss"; the `j`-th call issued by the callbacks - the call at position `ops.length + j` of that sequence - has
+fired exactly once, with the loss reason, when `connectionLost` returns, and neither a table entry nor a timer of
+its Deferred is left (what IS left belongs to the errbacks' retries: `retry_lands_after_loss`). -/
+theorem disconnect_callback_calls_get_loss_reason (asStr : V → Option (List Char)) (ops : List (Op V R))
+    (dcs : List DcAction) (hq : QuietDcs dcs) (rx : Reactions) (r : R)
+    (hd : DistinctSerials (ops ++ (dcCalls dcs).map NewCall.toOp))
+    {j : Nat} {c : NewCall} (hj : (dcCalls dcs)[j]? = some c) :
+    lostOpD rx dcs (final asStr ops) r
+      = lostOpR rx (final asStr (ops ++ (dcCalls dcs).map NewCall.toOp)) r ∧
+    firingsOf (callId (ops ++ (dcCalls dcs).map NewCall.toOp) (ops.length + j))
+      (lostOpD rx dcs (final asStr ops) r).log = [Firing.lost r] ∧
+    (∀ e ∈ (lostOpD rx dcs (final asStr ops) r).pending,
+      e.2.did ≠ callId (ops ++ (dcCalls dcs).map NewCall.toOp) (ops.length + j)) ∧
+    (∀ x ∈ (lostOpD rx dcs (final asStr ops) r).timers,
+      x.1 ≠ callId (ops ++ (dcCalls dcs).map NewCall.toOp) (ops.length + j)) := by
+  have hr0 : (final asStr ops).ready = true := by simp only [final, run_ready]; rfl
+  have heq : lostOpD rx dcs (final asStr ops) r
+      = lostOpR rx (final asStr (ops ++ (dcCalls dcs).map NewCall.toOp)) r := by
+    rw [lostOpD_eq asStr rx dcs hq _ hr0 r]
+    simp only [final, run_append]
+  have hI1 : Inv (final asStr (ops ++ (dcCalls dcs).map NewCall.toOp)) := inv_reachable asStr hd true
+  have hr1 : (final asStr (ops ++ (dcCalls dcs).map NewCall.toOp)).ready = true := by
+    simp only [final, run_ready]; rfl
+  -- the call is in the sequence, and nothing after it concerns it: only further calls follow
+  have hi : (ops ++ (dcCalls dcs).map NewCall.toOp)[ops.length + j]?
+      = some (.call c.serial true c.timeout c.rs) := by
+    rw [List.getElem?_append_right (Nat.le_add_right _ _), Nat.add_sub_cancel_left, List.getElem?_map, hj]
+    rfl
+  have hnone : ∀ op ∈ (ops ++ (dcCalls dcs).map NewCall.toOp).drop (ops.length + j + 1),
+      completes asStr c.serial (callId (ops ++ (dcCalls dcs).map NewCall.toOp) (ops.length + j))
+        (truthyTimeout c.timeout) op = none := by
+    intro op hop
+    obtain ⟨m, hm⟩ := List.mem_iff_getElem?.mp hop
+    rw [List.getElem?_drop, List.getElem?_append_right (by omega), List.getElem?_map] at hm
+    cases hg : (dcCalls dcs)[ops.length + j + 1 + m - ops.length]? with
+    | none => rw [hg] at hm; cases hm
+    | some c' =>
+      rw [hg] at hm
+      simp only [Option.map_some, Option.some.injEq] at hm
+      rw [← hm]
+      rfl
+  obtain ⟨_, hmem⟩ := pending_until_completed asStr _ hd hi hnone
+  obtain ⟨h1, _, h3⟩ := retry_lands_after_loss_state rx hI1 hr1 r
+  have hlt := hI1.did_lt _ hmem
+  refine ⟨heq, ?_, ?_, ?_⟩
+  · rw [heq]; exact h1 _ hmem
+  · rw [heq]
+    intro e he hk
+    have := h3 e he
+    simp only at hlt
+    omega
+  · rw [heq]
+    intro x hx hk
+    have := lostOpR_timers_ge rx hI1 hr1 r x hx
+    simp only at hlt
+    omega
+
 /-! ## Examples: the hypotheses are satisfiable, and the hypothesis is needed -/
 
 section Examples
@@ -450,6 +510,14 @@ theorem disconnect_callback_call_is_failed :
     firingsOf 1 (finalR exAsStr dcCallOps).base.log = [.lost 1] ∧
     (finalR exAsStr dcCallOps).base.pending = [] ∧ (finalR exAsStr dcCallOps).base.timers = [] := by decide
 
+/-- The hypotheses of `disconnect_callback_calls_get_loss_reason` are satisfiable: two callbacks, three calls (with a
+deadline, without, timeout=0) on top of `exOps` without its loss. -/
+def exDcs : List DcAction := [.issues [⟨14, some 2, .noCheck⟩, ⟨16, none, .noCheck⟩], .issues [⟨17, some 0, .str ['s']⟩]]
+
+example : QuietDcs exDcs := Or.inr (by decide)
+example : DistinctSerials (exOps.dropLast ++ (dcCalls exDcs).map NewCall.toOp) := by decide
+example : (dcCalls exDcs)[2]? = some ⟨17, some 0, .str ['s']⟩ := rfl
+
 /-- F-1: `connectionLost` calls the disconnect callbacks BEFORE it fails the pending calls.  As long as the
 source does not guard them (`dcGuarded = false`), a callback that raises aborts `connectionLost`: the
 outstanding calls never get the loss reason and table and timer stay - the model of the unrepaired code violates
@@ -506,6 +574,7 @@ end Txdbus.C08
 #print axioms Txdbus.C08.caller_gets_convention
 #print axioms Txdbus.C08.retry_lands_after_loss
 #print axioms Txdbus.C08.disconnect_callback_call_is_failed
+#print axioms Txdbus.C08.disconnect_callback_calls_get_loss_reason
 #print axioms Txdbus.C08.raising_disconnect_callback_aborts_loss
 #print axioms Txdbus.C08.reentrant_reduces
 #print axioms Txdbus.C08.reentrant_exactly_once
